@@ -296,7 +296,7 @@ fn leaf() -> impl Strategy<Value = FSpec> {
 }
 
 pub fn fspec() -> impl Strategy<Value = FSpec> {
-    leaf().prop_recursive(4, 24, 5, |inner| {
+    leaf().prop_recursive(4, 64, 5, |inner| {
         prop_oneof![
             1 => inner.clone().prop_map(|f| FSpec::Negate(Box::new(f))),
             1 => inner.clone().prop_map(|f| FSpec::NotOp(Box::new(f))),
@@ -363,10 +363,11 @@ pub fn property(_tier: Tier) -> Property {
             Box::new(RandomPart {
                 name: "random_trees",
                 rule: "proptest: trees of depth <= 4 built only through Filter::new/tag/tag_exists/tag_absent/negate/!/and over the 31 named tags, Tag::any() and valid unknown names, all 5 operators, values up to 300 chars over all special classes plus ( ) ! = AND; carried by Find, Count, CountGrouped::filter, Count::group_by, List::filter (+group_by); tokenised and parsed by the MPD ports, compared with the mirror tree after flattening ANDs; same non-trivial rule; distinct by serialised case",
-                cases: (20_000, 2_000_000),
+                cases: (100_000, 3_000_000),
                 strategy: Box::new(|_t| (fspec(), carrier()).prop_map(|(spec, carrier)| Case { spec, carrier }).boxed()),
                 check: Box::new(check),
             }),
+            crate::fuzzops::corpus_part("fuzz_corpus", "fz_cmd", "C11", crate::fuzzops::cmd_target),
         ],
         assumptions: vec![
             "vlib::mpdtok and vlib::mpdfilter are faithful ports of MPD's Tokenizer and SongFilter::ParseExpression (self-test vectors run first)",
